@@ -33,12 +33,15 @@ FEEDBACKS = [
     ("get_over", None, "int", "int"),  # on c1 this overrides an inherited @feedback of the same name
     ("get_pattern", None, "int", "pattern"),  # values repeat: X, Y, Y, X, X, X, Y, Y ...
     ("get_flagpat", None, "bool", "boolpat"),
+    ("get_triple", None, "tuple[float, float, float]", "ftriple"),  # homogeneous fixed-length tuples; the getter returns ints
+    ("get_single", None, "tuple[float]", "fsingle"),
+    ("get_pair", None, "tuple[str, str]", "spair"),
     ("get_strpat", None, None, "strpat"),
 ]
 PATTERN = [1, 2, 2, 1, 1, 1, 2, 2, 1, 2]
 FEEDBACKS = [f for f in FEEDBACKS if f[0] != "get_"]
 _MUT = {}
-TYPESTR = {"pattern": "int", "boolpat": "boolean", "strpat": "string", "mutlist": "double[]", "mutstrs": "string[]", "float": "double", "int": "int", "bool": "boolean", "str": "string", "ints": "int[]", "floats": "double[]", "strs": "string[]", "bools": "boolean[]", "rot": "struct:Rotation2d", "rots": "struct:Rotation2d[]"}
+TYPESTR = {"ftriple": "double[]", "fsingle": "double[]", "spair": "string[]", "pattern": "int", "boolpat": "boolean", "strpat": "string", "mutlist": "double[]", "mutstrs": "string[]", "float": "double", "int": "int", "bool": "boolean", "str": "string", "ints": "int[]", "floats": "double[]", "strs": "string[]", "bools": "boolean[]", "rot": "struct:Rotation2d", "rots": "struct:Rotation2d[]"}
 
 
 def expected_key(name, key):
@@ -74,6 +77,9 @@ def value_for(kind, n, salt=0, site=None):
         "bools": [n % 2 == 0, True],
         "rot": Rotation2d(n * 0.125),
         "rots": [Rotation2d(n * 0.125), Rotation2d(1.0)],
+        "ftriple": (n, n + 1, n + 2),
+        "fsingle": (n * 5,),
+        "spair": (f"l{n}", f"r{n}"),
     }[kind]
 
 
@@ -106,7 +112,8 @@ def the_layout(v):
     base_src = "    @feedback\n    def get_over(self) -> int:\n        return _fbval(self.SITE + '.fb.get_over', self)\n    @feedback\n    def get_inherited(self) -> int:\n        return 77\n"
     cb = c("cb", fb=False, extra_src=base_src)  # the base class is a component itself, declared before its subclass
     comps = [c("c0", fb=False, extra_src=fb_src("c0")), c("c1", fb=False, inherit="cb", extra_src=fb_src("c1"))]
-    lay = R.layout(f"fb{v}", ([cb] + comps) if v == 0 else ([cb] + comps[::-1]), auto=(v == 0), teleop_in_auto=False, p_us=20000, robot_fb=False, robot_extra=fb_src("robot"))
+    # v == 2: every robot-level getter is defined on a base robot class and inherited by the class that runs
+    lay = R.layout(f"fb{v}", ([cb] + comps) if v != 1 else ([cb] + comps[::-1]), auto=(v == 0), teleop_in_auto=False, p_us=20000, robot_fb=False, robot_extra=fb_src("robot"), robot_base=(v == 2))
     lay["prelude"] = (
         "from collections.abc import Sequence\nfrom wpimath.geometry import Rotation2d\n"
     )
@@ -126,6 +133,8 @@ def robot_source(lay):
 R.robot_source = robot_source
 
 OWNERS = [("c0", "/components/c0/"), ("c1", "/components/c1/"), ("robot", "/robot/")]
+# getters that exist only on a base class (component cb; its subclass instance c1): constant value 77
+INHERITED = [("cb", "/components/cb/inherited"), ("c1", "/components/c1/inherited")]
 
 
 def fbvalue(site, n):
@@ -161,6 +170,10 @@ def observe(robot, k, inst):
                 exists = v.isValid()
                 val = v.value() if exists else None
             out[f"{owner}.{name}"] = (norm(val), topic.getTypeString() if topic.exists() else None, exists)
+    for owner, path in INHERITED:
+        v = inst.getEntry(path).getValue()
+        topic = inst.getTopic(path)
+        out[f"{owner}.<inherited>"] = (norm(v.value()) if v.isValid() else None, topic.getTypeString() if topic.exists() else None, v.isValid())
     return out
 
 
@@ -171,6 +184,11 @@ def check(lay, h, life, plan):
     for k, st in enumerate(life.steps):
         if st["mode"] == "end" or "obs" not in st:
             continue
+        for owner, path in INHERITED:
+            got = tuple(st["obs"][f"{owner}.<inherited>"])
+            if got != (77.0, "int", True):
+                out.append((f"inherited-getter:{owner}", f"history {h!r} step {k} (mode {st['mode']}): {path} (a @feedback defined on the base class of {owner}) holds {got!r}, expected (77.0, 'int', True)"))
+                return out
         returned = {}
         for rec in life.log[st["start"]:st["end"]]:
             s = rec[0]
@@ -247,7 +265,7 @@ def main(tier, seed):
     multi = [{"c0.fb.get_angle": (1, 2, 3)}, {"robot.fb.speed": (2, 4, 6)}, {"c1.fb.get_label": (1, 3, 4, 5)}, {"c0.fb.get_pattern": (2, 3)}]
     long_hs = ["dddddddd", "tttttttt", "aaaaaaaa", "xxxxxxxx", "dtdtdtdt", "datxdatx", "ttddaaxx"]
     items = []
-    for v in (0, 1):
+    for v in (0, 1, 2):
         lay = the_layout(v)
         for i in range(0, len(hs), 8):
             items.append(dict(layout=lay, histories=hs[i:i + 8], plans=plans))
@@ -256,11 +274,11 @@ def main(tier, seed):
     res = core.Result()
     for d in core.parallel("mc.props.c11", "work", items, seed=seed):
         res.merge(d)
-    res.bounds.update(long_histories=long_hs, multi_call_fault_plans=[{k: list(v) for k, v in m.items()} for m in multi], history_depth=depth, layouts=2, feedback_methods_per_owner=len(FEEDBACKS), owners=["component c0", "component c1", "robot"], fault_plans=len(plans))
+    res.bounds.update(long_histories=long_hs, multi_call_fault_plans=[{k: list(v) for k, v in m.items()} for m in multi], history_depth=depth, layouts=3, feedback_methods_per_owner=len(FEEDBACKS), owners=["component c0", "component c1", "robot"], fault_plans=len(plans))
     rule = (
-        "two layouts x every driver-station history up to the stated depth (all four modes) x fault plans for selected getters (FMS attached): "
+        "three layouts (two component orders; robot getters inherited from a base robot class; getters inherited from a base component class) x every driver-station history up to the stated depth (all four modes) x fault plans for selected getters (FMS attached): "
         f"each of 3 owners (two components, the robot) has {len(FEEDBACKS)} @feedback methods (with/without get_ prefix, explicit key=, return "
-        "annotations int/float/bool/str/Sequence[int]/list[float]/tuple[str, ...]/Sequence[bool]/Rotation2d/Sequence[Rotation2d], and no annotation) "
+        "annotations int/float/bool/str/Sequence[int]/list[float]/tuple[str, ...]/tuple[float, float, float]/tuple[float]/tuple[str, str]/Sequence[bool]/Rotation2d/Sequence[Rotation2d], and no annotation) "
         "returning a function of their own call count; after every loop iteration an independent NetworkTables read must find exactly the value "
         "returned in that iteration under /components/<name>/<key> or /robot/<key>, with the expected topic type, each method called exactly once; "
         "an entry whose getter raised keeps its previous value. distinct outcome = distinct final entry table."
